@@ -110,6 +110,12 @@ def gen(rng: random.Random, tier: str) -> dict:
            "nl_suffix": rng.choice(["?v=7", "#h"]) if rng.random() < 0.25 else None,
            "ref_alt": rng.choice([["paragraph"], ["paragraph", "blockquote"], ["blockquote", "list"], []])
            if rng.random() < 0.25 else None}
+    # a user container rule (':::' ... ':::') that parses its body as a nested sub-document with md.block.parse on the
+    # SAME env, as directive-style plugins do; in some blocks the definitions from index k on sit inside such a container
+    pre["container"] = rng.random() < 0.2
+    wraps = [None] * len(blocks)
+    if pre["container"]:
+        wraps = [(rng.randrange(len(b)) if rng.random() < 0.6 else None) for b in blocks]
     leads = [None] * len(blocks)
     if pre["ref_alt"] and "paragraph" in pre["ref_alt"]:
         # the rule may now interrupt a paragraph: a definition directly under a line of text
@@ -135,7 +141,7 @@ def gen(rng: random.Random, tier: str) -> dict:
         base = rng.choice(pool)
         var, vk = _variant(rng, base)
         uses.append({"label": var, "vk": vk, "form": rng.choice(["full", "full", "collapsed", "shortcut", "image"])})
-    return {"cfg": cfg, "pre": pre, "leads": leads, "blocks": blocks, "n_env": n_env, "n_inst": n_inst, "hist": hist,
+    return {"cfg": cfg, "pre": pre, "leads": leads, "wraps": wraps, "blocks": blocks, "n_env": n_env, "n_inst": n_inst, "hist": hist,
             "env_type": rng.choice(["dict", "dict", "userdict"]),
             "probe": {"inst": rng.randrange(n_inst), "env": rng.randrange(n_env), "doc": doc, "redefine": redefine,
                       "uses": uses}}
@@ -158,6 +164,32 @@ def _strip_maps_list(dups):
     return [{a: b for a, b in v.items() if a != "map"} for v in dups]
 
 
+def _container_rule(state, startLine, endLine, silent):
+    def marker(line):
+        if state.is_code_block(line):
+            return False
+        return state.src[state.bMarks[line] + state.tShift[line]:state.eMarks[line]].strip() == ":::"
+    if not marker(startLine):
+        return False
+    nxt = startLine + 1
+    while nxt < endLine and not marker(nxt):
+        nxt += 1
+    if nxt >= endLine:
+        return False
+    if silent:
+        return True
+    body = state.getLines(startLine + 1, nxt, state.blkIndent, True)
+    state.md.block.parse(body, state.md, state.env, state.tokens)      # nested sub-document, same env
+    state.line = nxt + 1
+    return True
+
+
+def _wrapped_text(defs, k) -> str:
+    if k is None:
+        return _block_text(defs)
+    return "".join(d["text"] + "\n" for d in defs[:k]) + ":::\n" + "".join(d["text"] + "\n" for d in defs[k:]) + ":::\n"
+
+
 def build_inst(rec, used: bool):
     """An instance of the run's configuration; `used` ones have a past (see gen), the twin has none."""
     md = docgen.build(rec["cfg"])
@@ -166,6 +198,9 @@ def build_inst(rec, used: bool):
         for defs in rec["blocks"]:
             uses = " ".join(f"[t][{d['label']}] [t]({d['dest']}{' ' if d['title'] else ''}{d['title']})" for d in defs)
             md.render(_block_text(defs) + "\n" + uses + "\n", {})
+    if pre.get("container"):
+        md.block.ruler.before("paragraph", "verif_container", _container_rule,
+                              {"alt": ["paragraph", "reference", "blockquote", "list"]})
     if pre.get("nl_suffix"):
         orig, suffix = md.normalizeLink, pre["nl_suffix"]
         md.normalizeLink = lambda url: orig(url) + suffix
@@ -214,7 +249,12 @@ def execute(rec: dict, res: RunResult) -> None:
     for k, (i, e, b) in enumerate(rec["hist"]):
         defs = rec["blocks"][b]
         lead = leads[b]
-        text = (lead + "\n" if lead else "") + _block_text(defs)
+        wrap = (rec.get("wraps") or [None] * len(rec["blocks"]))[b]
+        if wrap is not None and wrap >= len(defs):
+            wrap = None
+        text = (lead + "\n" if lead else "") + _wrapped_text(defs, wrap)
+        if wrap is not None:
+            res.count("definitions_inside_nested_subdocument_container")
         for d in defs:
             for key in model[e]:
                 if not _agree(d["label"], model[e][key]["label"]):
@@ -253,7 +293,9 @@ def execute(rec: dict, res: RunResult) -> None:
         new_refs = list(refs.items())[n_ref0:]
         new_dups = list(dups)[n_dup0:]
         line = 1 if lead else 0
-        for d in defs:
+        for di, d in enumerate(defs):
+            if wrap is not None and di == wrap:
+                line = 0            # inside the container: line numbers of the nested sub-document
             nlines = d["text"].count("\n") + 1
             key = norm_model(d["label"])
             if "\n" in d["text"]:
@@ -386,7 +428,8 @@ class C16(Engine):
     expected_probes = ["seeded_twice", "label_case_variant_resolved", "label_whitespace_variant_resolved",
                        "duplicate_in_D_of_seeded_label", "multiline_definition", "userdict_env", "two_instances_one_env",
                        "inline_form_compared", "instances_with_a_past", "link_hook_reassigned_before_history",
-                       "reference_rule_reregistered_with_alt", "definition_directly_under_paragraph_text"]
+                       "reference_rule_reregistered_with_alt", "definition_directly_under_paragraph_text",
+                       "definitions_inside_nested_subdocument_container"]
 
     def budget(self, tier):
         if tier == "quick":
@@ -435,6 +478,10 @@ class C16(Engine):
                 yield {**rec, "pre": {**pre, key: simple}}
         if pre.get("ref_alt") is not None and not any(rec.get("leads") or []):
             yield {**rec, "pre": {**pre, "ref_alt": None}}
+        if pre.get("container") and rec.get("wraps"):
+            for b, k in enumerate(rec["wraps"]):
+                if k is not None:
+                    yield {**rec, "wraps": rec["wraps"][:b] + [None] + rec["wraps"][b + 1:]}
         if rec["n_inst"] > 1:
             yield {**rec, "n_inst": 1, "hist": [[0, e, b] for _, e, b in hist], "probe": {**p, "inst": 0}}
         if rec["n_env"] > 1:
